@@ -108,6 +108,9 @@ def _is_countable_method(node: Any) -> bool:
     if node.type != "method_definition":
         return False
 
+    if _is_declared_private(node):
+        return False
+
     method_name = _get_method_name(node)
 
     # Don't count constructors
@@ -119,6 +122,16 @@ def _is_countable_method(node: Any) -> bool:
         return False
 
     return True
+
+
+def _is_declared_private(node: Any) -> bool:
+    """Check for a #name method or a private/protected accessibility modifier."""
+    for child in node.children:
+        if child.type == "private_property_identifier":
+            return True
+        if child.type == "accessibility_modifier" and child.text.decode() in ("private", "protected"):
+            return True
+    return False
 
 
 def _get_method_name(node: Any) -> str | None:
